@@ -1044,10 +1044,12 @@ class Interp:
         raise Unsupported(f'subscript of {obj!r}')
 
     def e_ListComp(self, n, env):
-        return MList(self._comp(n, env))
+        r = self._comp(n, env)
+        return MList(r) if isinstance(r, list) else r      # (an abstract source may answer with an abstract collection)
 
     def e_GeneratorExp(self, n, env):
-        return MList(self._comp(n, env))
+        r = self._comp(n, env)
+        return MList(r) if isinstance(r, list) else r
 
     def e_SetComp(self, n, env):
         items = self._comp(n, env)
